@@ -27,3 +27,78 @@ Print Assumptions C17_generate_is_rowmajor_product.
 Theorem C17_generate_is_spec : forall s, wf_sweep s = true -> order_ok s -> generate s = spec_list s.
 Proof. exact generate_is_spec. Qed.
 Print Assumptions C17_generate_is_spec.
+
+From Verif Require Import Proofs.SweepMulti Proofs.SweepProduct Proofs.SweepWitness.
+
+(* product of sweeps with disjoint keys = Cartesian product of the combination lists, row-major, as finite maps
+   (ceq: same value for every key), including constants, derivers and exclusions of all operands, and len agrees.
+   FULL STATEMENT (false of the code, see the two _refuted theorems): the same without the two hypotheses marked
+   "guard". Hypotheses: operands well formed, every name (item, constant and deriver keys) used by one operand only,
+   user callables only look at keys of their own operand, dims omitted or in item order. *)
+Theorem C17_product_is_cartesian_partial : forall s others ls,
+  Forall (fun o => wf_sweep o = true) (s :: others) ->
+  NoDup (concat (map all_keys (s :: others))) ->
+  Forall local_sweep (s :: others) ->
+  Forall (fun o => in_item_order o = true) (s :: others) ->
+  Forall (fun o => items o <> []) (s :: others) ->                      (* guard: product-empty-operand-neutral *)
+  (dims s = None -> Forall (fun o => dims o = None) others) ->          (* guard: product-loses-zip *)
+  mapM generate (s :: others) = Ok ls ->
+  exists p l, product s others = Ok p /\ generate p = Ok l /\ Forall2 ceq l (cart_union ls)
+              /\ len p = Ok (length l).
+Proof. exact product_is_cartesian_guarded. Qed.
+Print Assumptions C17_product_is_cartesian_partial.
+
+(* a non-trivial instance of the hypotheses: three operands, a zip, constants, local derivers and excludes *)
+Example C17_product_hyps_inhabited :
+  Forall (fun o => wf_sweep o = true) [e_1; e_2; e_3]
+  /\ NoDup (concat (map all_keys [e_1; e_2; e_3]))
+  /\ Forall local_sweep [e_1; e_2; e_3]
+  /\ Forall (fun o => in_item_order o = true) [e_1; e_2; e_3]
+  /\ Forall (fun o => items o <> []) [e_1; e_2; e_3]
+  /\ (dims e_1 = None -> Forall (fun o => dims o = None) [e_2; e_3])
+  /\ exists ls, mapM generate [e_1; e_2; e_3] = Ok ls /\ length (cart_union ls) = 8.
+Proof. exact product_example_hyps. Qed.
+
+(* without the guard on dims: 8 combinations instead of 2 x 2 (known finding product-loses-zip) *)
+Theorem C17_product_is_cartesian_refuted_zip :
+  exists s others ls p l,
+    Forall (fun o => wf_sweep o = true) (s :: others)
+    /\ NoDup (concat (map all_keys (s :: others)))
+    /\ Forall local_sweep (s :: others)
+    /\ Forall (fun o => in_item_order o = true) (s :: others)
+    /\ Forall (fun o => items o <> []) (s :: others)
+    /\ mapM generate (s :: others) = Ok ls
+    /\ product s others = Ok p /\ generate p = Ok l /\ len p = Ok (length l)
+    /\ length l = 8 /\ length (cart_union ls) = 4.
+Proof. exact product_loses_zip_witness. Qed.
+Print Assumptions C17_product_is_cartesian_refuted_zip.
+
+(* without the guard on empty item dicts: 2 combinations instead of 2 x 0 (known finding
+   product-empty-operand-neutral) *)
+Theorem C17_product_is_cartesian_refuted_empty :
+  exists s others ls p l,
+    Forall (fun o => wf_sweep o = true) (s :: others)
+    /\ NoDup (concat (map all_keys (s :: others)))
+    /\ Forall local_sweep (s :: others)
+    /\ Forall (fun o => in_item_order o = true) (s :: others)
+    /\ (dims s = None -> Forall (fun o => dims o = None) others)
+    /\ mapM generate (s :: others) = Ok ls
+    /\ product s others = Ok p /\ generate p = Ok l /\ len p = Ok (length l)
+    /\ length l = 2 /\ length (cart_union ls) = 0.
+Proof. exact product_empty_operand_witness. Qed.
+Print Assumptions C17_product_is_cartesian_refuted_empty.
+
+(* a + b, MultiSweep( *l ): concatenation, and len is the sum / the length of the list *)
+Theorem C17_add_is_concat : forall a b,
+  mgenerate (madd a b) = (do x <- mgenerate a; do y <- mgenerate b; Ok (x ++ y))
+  /\ mlen (madd a b) = (do x <- mlen a; do y <- mlen b; Ok (x + y)).
+Proof. intros a b. exact (conj (add_is_concat a b) (add_len_sum a b)). Qed.
+Print Assumptions C17_add_is_concat.
+
+Theorem C17_multi_is_concat : forall l, mgenerate (MMulti l) = (do ls <- mapM mgenerate l; Ok (concat ls)).
+Proof. exact mgenerate_multi. Qed.
+Print Assumptions C17_multi_is_concat.
+
+Theorem C17_multi_len_eq_length : forall m l, mgenerate m = Ok l -> mlen m = Ok (length l).
+Proof. exact mlen_eq_length. Qed.
+Print Assumptions C17_multi_len_eq_length.
